@@ -52,17 +52,6 @@ theorem Cfg.bind_r {α β : Type} {p : Prog α} {f : α → Prog β} {g : Items}
 theorem Cfg.bind0 {α β : Type} {p : Prog α} {f : α → Prog β} (h1 : Cfg kind n p {}) (h2 : ∀ a, Cfg kind n (f a) {}) :
     Cfg kind n (p >>= f) {} := Cfg.bind_r h1 h2
 
-/-- `g` without the items of `g1` -/
-def Items.diff (a b : Items) : Items :=
-  { packetType := a.packetType && !b.packetType, syncWord := a.syncWord && !b.syncWord,
-    regulator := a.regulator && !b.regulator, tcxo := a.tcxo && !b.tcxo, bufferBase := a.bufferBase && !b.bufferBase,
-    modulation := a.modulation && !b.modulation, packet := a.packet && !b.packet, irq := a.irq && !b.irq,
-    frequency := a.frequency && !b.frequency, pa := a.pa && !b.pa }
-
-theorem Items.le_union_diff (g g1 : Items) : g.le (g1.union (g.diff g1)) := by
-  simp only [Items.le, Items.union, Items.diff]
-  refine ⟨?_, ?_, ?_, ?_, ?_, ?_, ?_, ?_, ?_, ?_⟩ <;> intro h <;> simp [h]
-
 /-- sequencing against a fixed goal: what the first part programs need not be programmed by the rest -/
 theorem Cfg.step {α β : Type} {p : Prog α} {f : α → Prog β} {g g1 : Items} (h1 : Cfg kind n p g1)
     (h2 : ∀ a, Cfg kind n (f a) (g.diff g1)) : Cfg kind n (p >>= f) g :=
